@@ -642,11 +642,28 @@ func c20Stacks(c *Ctx) {
 				gh.Del("Content-Type")
 				bh.Del("Content-Type")
 			}
-			// documented addition: the sticky cookie
+			// documented addition: the sticky cookie. A cookie-less request through a sticky balancer gets one, whatever the
+			// layers below it do to the response headers
 			var kept []string
+			affinity := 0
 			for _, v := range gh.Values("Set-Cookie") {
 				if !strings.HasPrefix(v, "c20aff=") {
 					kept = append(kept, v)
+				} else {
+					affinity++
+				}
+			}
+			stickyLayers := 0
+			for _, sp := range specs {
+				if sp.Sticky && (sp.Kind == "roundrobin" || sp.Kind == "rebalancer") {
+					stickyLayers++
+				}
+			}
+			if stickyLayers > 0 {
+				c.Count("sticky_cookie_presence_checked", 1)
+				if affinity == 0 {
+					c.Violation("transparent/sticky-cookie-lost", sfmt("the stack contains %d balancer(s) with sticky sessions and the request carried no cookie, but the response has no affinity cookie (Set-Cookie seen: %q)", stickyLayers, gh.Values("Set-Cookie")), desc)
+					return
 				}
 			}
 			gh.Del("Set-Cookie")
